@@ -14,7 +14,9 @@ from . import common
 
 KNOWN_FILE = os.path.join(common.VERIF_DIR, "known_findings.json")
 REPLAY_DIR = os.path.join(common.VERIF_DIR, "replays")
-EVIDENCE_DIR = os.path.join(common.VERIF_DIR, "evidence")
+# evidence describes runs against /repo itself; runs against a scratch copy (HSVERIF_REPO_SRC) write elsewhere
+EVIDENCE_DIR = os.path.join(common.VERIF_DIR, "evidence") if not os.environ.get("HSVERIF_REPO_SRC") \
+    else os.path.join("/tmp", "hsverif-scratch-evidence")
 PROP_IDS = ["C%02d" % i for i in range(1, 21)]
 
 
